@@ -19,16 +19,15 @@ gap for finite inputs:
 * `frexpExp_spec` / `frexpExp_unique` — the hand-written GenLib function `Go.frexpExp` satisfies, for every
   rational `m > 0`, the specification of the exponent of `math.Frexp` (`2^(e-1) ≤ m < 2^e`), and that specification
   determines `e`; `ldexp_eq_zpow` — `Go.ldexp x k = x·2^k`.
-* `factor_spec` — when the guard of `clipLine` lets the scaled branch run (`2^-1000 ≤ m < 1/2`), the factor is
-  `2^k` with `1 ≤ k ≤ 999` and brings `m` into `[1/2, 1)`.
+* `factor_spec` — when the guard of `clipLine` lets the scaled branch run (`2^-1022 ≤ m < 1/2`, i.e. `m` is a normal number below 1/2), the factor is
+  `2^k` with `1 ≤ k ≤ 1021` and brings `m` into `[1/2, 1)`.
 * `C14_scale_up_exact` — for representable operands every product of the way IN (`scalePath(r, s)` for the line and
   every ring) is representable and smaller than 1 in absolute value; the factor and its reciprocal are
   representable: the float computation of the scaled operands IS the model's (`C14_float_scale_up`).
 * `C14_scale_back_exact` — on the way BACK (`scalePath(r, 1/s)`) the product is representable whenever its exact
   value is zero or at least `2^-1022` in absolute value (the normal range); `C14_scale_roundtrip` — a vertex of the
   operands that the sweep returns unchanged comes back bit for bit.  A computed crossing point whose scaled-back
-  value is subnormal (smaller than `2^-22` times the largest coordinate of the figure, since that is at least
-  `2^-1000`) is rounded to the subnormal grid; that is the only inexact case and it is stated as such.
+  value is subnormal (smaller than the largest coordinate of the figure, since that is at least `2^-1022`) is rounded to the subnormal grid; that is the only inexact case and it is stated as such.
 -/
 set_option linter.unusedSimpArgs false
 set_option linter.unusedVariables false
@@ -201,15 +200,15 @@ theorem isF64_mul_down (y : Rat) (k : Int) (hy : IsF64 y) (hk : k ≤ 0)
 /-! ## the factor -/
 
 set_option exponentiation.threshold 1100 in
-theorem tinyLo_eq : tinyLo = (2 : Rat) ^ (-1000 : Int) := by
+theorem tinyLo_eq : tinyLo = (2 : Rat) ^ (-1022 : Int) := by
   unfold tinyLo
   rw [zpow_neg, one_div]
   norm_num
 
-/-- **the factor of the scaled branch**: if the guard lets the scaled branch run, the factor is `2^k`, `1 ≤ k ≤ 999`,
+/-- **the factor of the scaled branch**: if the guard lets the scaled branch run, the factor is `2^k`, `1 ≤ k ≤ 1021`,
 and brings the largest absolute coordinate into `[1/2, 1)` -/
 theorem factor_spec (m : Rat) (hg : noScale m = false) :
-    ∃ k : Int, 1 ≤ k ∧ k ≤ 999 ∧ factor m = (2 : Rat) ^ k ∧ 1 / factor m = (2 : Rat) ^ (-k) ∧
+    ∃ k : Int, 1 ≤ k ∧ k ≤ 1021 ∧ factor m = (2 : Rat) ^ k ∧ 1 / factor m = (2 : Rat) ^ (-k) ∧
       (1 : Rat) / 2 ≤ m * factor m ∧ m * factor m < 1 := by
   have hg' : tinyLo ≤ m ∧ m < (1 : Rat) / 2 := by
     unfold noScale at hg
@@ -222,7 +221,7 @@ theorem factor_spec (m : Rat) (hg : noScale m = false) :
   set e := Go.frexpExp m with he
   have hhalf : (1 : Rat) / 2 = (2 : Rat) ^ (-1 : Int) := by norm_num
   have e_hi : e - 1 < -1 := two_zpow_lt.mp (by rw [← hhalf]; exact lt_of_le_of_lt s1 hhi)
-  have e_lo : -1000 < e := two_zpow_lt.mp (lt_of_le_of_lt hlo s2)
+  have e_lo : -1022 < e := two_zpow_lt.mp (lt_of_le_of_lt hlo s2)
   have hf : factor m = (2 : Rat) ^ (-e) := by
     unfold factor
     rw [hg]
